@@ -199,3 +199,98 @@ Proof.
     destruct (rblast_roundtrip m out E) as (c & Hc' & Hd). unfold canon in Hc'. congruence.
   - apply rblast_refuses_iff in E. unfold canon in E. congruence.
 Qed.
+
+(* ------------------------------------------------------------------------------------ *)
+(* inbound decoder: a bare LF is never accepted; conforming senders round-trip *)
+
+Definition prevb (st : sst) : N := match st with S3 | S4 => 13 | _ => 0 end.
+
+Lemma nbl_ext p q s : (p =? 13) = (q =? 13) -> no_bare_lf p s = no_bare_lf q s.
+Proof. destruct s as [|c s]; [reflexivity|]. cbn. unfold CR. intros ->. reflexivity. Qed.
+
+Ltac nbl_close Hp :=
+  first [ exact Hp
+        | match goal with |- no_bare_lf ?x _ = _ =>
+            rewrite (nbl_ext x 0); [exact Hp | cbn; try assumption; reflexivity] end
+        | match goal with |- no_bare_lf ?x _ = _ =>
+            rewrite (nbl_ext x 13); [exact Hp | cbn; try assumption; reflexivity] end ].
+
+Lemma sdec_Done_no_bare_lf s : forall st b r,
+  sdec st s = Done b r -> exists p, s = p ++ r /\ no_bare_lf (prevb st) p = true.
+Proof.
+  unfold CR, LF, DOT.
+  induction s as [|ch s IH]; intros st b r H; [discriminate|].
+  cbn [sdec] in H.
+  destruct (sstep st ch) as [o st'| |] eqn:Es.
+  - destruct (sdec st' s) eqn:E; cbn in H; try discriminate. injection H as <- <-.
+    apply IH in E as (p' & -> & Hp). exists (ch :: p'). split; [reflexivity|].
+    unfold sstep in Es.
+    destruct st; cls ch; rewrite ?Hc in Es; cbn in Es; try discriminate; injection Es as <- <-;
+      cbn in Hp |- *; unfold LF, CR; rewrite ?H, ?H0, ?H1; cbn; nbl_close Hp.
+  - discriminate.
+  - injection H as <- <-. exists [ch]. unfold sstep in Es.
+    destruct st; cls ch; rewrite ?Hc in Es; try discriminate.
+    split; reflexivity.
+Qed.
+
+Lemma sdec_Stray_bare_lf s : forall st,
+  sdec st s = Stray ->
+  exists p r, s = p ++ 10 :: r /\ no_bare_lf (prevb st) (p ++ [10]) = false /\
+              occ TERM (ctx st ++ p) = 0%nat.
+Proof.
+  unfold TERM, CR, LF, DOT.
+  induction s as [|ch s IH]; intros st H; [discriminate|].
+  cbn [sdec] in H.
+  destruct (sstep st ch) as [o st'| |] eqn:Es.
+  - destruct (sdec st' s) eqn:E; cbn in H; try discriminate.
+    apply IH in E as (p' & r & -> & Hp & Hocc). exists (ch :: p'), r. split; [reflexivity|].
+    unfold sstep in Es.
+    destruct st; cls ch; rewrite ?Hc in Es; cbn in Es; try discriminate; injection Es as <- <-;
+      cbn in Hp, Hocc |- *; unfold LF, CR; rewrite ?H0, ?H1, ?H2; cbn; (split; [nbl_close Hp | exact Hocc]).
+  - exists [], s. unfold sstep in Es.
+    destruct st; cls ch; rewrite ?Hc in Es; try discriminate; (split; [reflexivity|split; reflexivity]).
+  - discriminate.
+Qed.
+
+Lemma sdec_rfc_enc m :
+  (ends_lf true m = true -> sdec S1 (rfc_enc true m) = Done m []) /\
+  (ends_lf false m = true -> sdec S0 (rfc_enc false m) = Done m []) /\
+  (ends_lf false m = true -> sdec S4 (rfc_enc false m) = Done (13 :: m) []).
+Proof.
+  unfold CR, LF, DOT.
+  induction m as [|c m (IH1 & IH0 & IH4)].
+  - repeat split; intro H; try discriminate; reflexivity.
+  - cbn [ends_lf rfc_enc]. unfold LF, DOT, CR.
+    cls c; rewrite ?H, ?H0, ?H1; cbn; unfold sstep; rewrite ?Hc; cbn.
+    + repeat split; intro E; rewrite ?(IH4 E); reflexivity.
+    + repeat split; intro E; rewrite ?(IH1 E); reflexivity.
+    + repeat split; intro E; rewrite ?(IH0 E); reflexivity.
+    + repeat split; intro E; rewrite ?(IH0 E); reflexivity.
+Qed.
+
+Lemma sblast_framing s b r :
+  sblast s = Done b r ->
+  exists p, s = p ++ r /\ occ TERM (CRLF ++ p) = 1%nat /\ (exists q, CRLF ++ p = q ++ TERM)
+            /\ no_bare_lf 10 p = true.
+Proof.
+  intros H. destruct (sdec_Done_framing s S1 b r H) as (p & Hp & Ho & Hq).
+  destruct (sdec_Done_no_bare_lf s S1 b r H) as (p' & Hp' & Hn).
+  assert (p = p') by (apply (app_inv_tail r); congruence). subst p'.
+  exists p. repeat split; try assumption.
+  rewrite (nbl_ext 10 0); [exact Hn | reflexivity].
+Qed.
+
+Lemma sblast_needmore s b : sblast s = NeedMore b -> occ TERM (CRLF ++ s) = 0%nat.
+Proof. exact (sdec_NeedMore_noterm s S1 b). Qed.
+
+Lemma sblast_stray s :
+  sblast s = Stray ->
+  exists p r, s = p ++ 10 :: r /\ no_bare_lf 10 (p ++ [10]) = false /\ occ TERM (CRLF ++ p) = 0%nat.
+Proof.
+  intros H. destruct (sdec_Stray_bare_lf s S1 H) as (p & r & Hs & Hn & Ho).
+  exists p, r. repeat split; try assumption.
+  rewrite (nbl_ext 10 0); [exact Hn | reflexivity].
+Qed.
+
+Lemma sblast_rfc_encode m : lf_terminated m = true -> sblast (rfc_encode m) = Done m [].
+Proof. exact (proj1 (sdec_rfc_enc m)). Qed.
